@@ -43,6 +43,10 @@ def gen_case(rnd, cid, seed):
     cfg = {"scan_key_number": rnd.choice([1, 2, 3, 5, 100]), "big_threshold": rnd.choice([40, 120, 10 ** 9]), "key_exists": rnd.choice(["none", "rewrite", "rewrite", "ignore"]),
            "tdb": rnd.choice([-1, -1, 0, 3]), "fdb_white": [], "fdb_black": [], "fkey_white": [], "fkey_black": [], "key_file": rnd.random() < 0.2,
            "target_version": rnd.choice(["5.0.7", "4.0.11", "3.2.12"])}
+    if cfg["key_exists"] == "ignore":
+        # rump sends small keys as a plain RESTORE whatever the policy ("ignore ... not used in rump mode", and outside this property's
+        # quantifier); the element-by-element route of big keys does honour it (C02's policy clause): under ignore every key takes that route
+        cfg["big_threshold"] = 1
     ndb = 1 if cfg["key_file"] else rnd.choice([1, 2, 2, 3])
     dbs = rnd.sample([0, 1, 2, 5, 15], ndb)
     r = rnd.random()
